@@ -50,6 +50,19 @@ def gen_cases(rng, tier):
                    "s": min(0.02, 2 * (rb - 2 * ro) - 0.006)})
         if cs[-1]["fluid"] != "water":
             cs[-1]["conc"] = 20.0
+    # thin-walled pipes (steel casings, SDR 26-41 tubes): outer / inner radius below 1.1
+    for k in range(4 if tier == "quick" else 16):
+        rb = rng.choice([0.07, 0.075, 0.09])
+        if k % 2 == 0:
+            ro = rng.choice([0.016, 0.02])
+            cs.append({"rb": rb, "H": 100.0, "kg": rng.choice([1.0, 2.0]), "ks": 2.0, "kp": rng.choice([0.4, 16.0]), "m": rng.uniform(0.2, 0.8), "fluid": "water", "conc": 0.0,
+                       "kind": rng.choice(["dp", "ds"]), "ro": ro, "ri": ro * rng.choice([0.93, 0.95, 0.975]), "s": min(0.02, 2 * (rb - 2 * ro) - 0.006)})
+        else:
+            r_oo = 0.05715
+            r_oi = r_oo - 0.003
+            r_io = 0.02
+            cs.append({"rb": 0.075, "H": 150.0, "kg": 1.5, "ks": 2.5, "kp": 0.4, "kp_in": 0.4, "kp_out": 16.0, "m": rng.uniform(0.5, 1.0), "fluid": "water", "conc": 0.0, "kind": "cx",
+                       "r_oo": r_oo, "r_oi": r_oi, "r_io": r_io, "r_ii": r_io - 0.0024, "via_manager": k % 4 == 1})
     # coaxial exchangers whose annulus flow is laminar or transitional (the film coefficients of the two walls of the annulus differ there)
     for k in range(4 if tier == "quick" else 20):
         r_oo = rng.choice([0.055, 0.05, 0.045])
@@ -102,6 +115,13 @@ def oracle(chk, c, o):
         if abs(o["R_fp_orig"] / want_fp - 1) > 1e-9:
             chk.violation("to-single", c, {"R_fp_of_the_exchanger_object": o["R_fp_orig"], "from_the_requested_numbers": want_fp},
                           "the exchanger's own fluid-to-outer-wall resistance is that of the requested geometry, conductivities and flow")
+    elif "h_tube" in o:
+        # double U-tube: the conversion's own definition of the convective part, 1 / (h n pi (2 r_in)^2) with n = 4 tubes, film coefficient of
+        # one tube from pygfunction for the requested numbers
+        want_fp = 1.0 / (o["h_tube"] * 4 * math.pi * (2 * c["ri"]) ** 2) + rp_i
+        if abs(o["rc"] / (want_fp - rp_i) - 1) > 1e-9:
+            chk.violation("to-single", c, {"convective_resistance_used_by_the_conversion": o["rc"], "from_the_requested_numbers": want_fp - rp_i},
+                          "the convective resistance handed to the conversion is that of the requested geometry, fluid and flow")
     else:
         want_fp = o["rc"] + rp_i
     if abs(o["eq_R_fp"] / want_fp - 1) > 1e-4:          # the root solve on the pipe conductivity stops at about 1e-5 relative
